@@ -20,7 +20,8 @@ package tree
 // the first-byte index only points at literal children, inside the child slice; with an index present the first child is literal
 //@ opaque pred idxOK(n *node) = len(n.indexes) > 0 ==> (len(n.children) >= 5 && n.children[0].segment.Type == 0 &&
 //@      (forall b byte :: in(b, n.indexes) ==> 0 <= n.indexes[b] && n.indexes[b] < len(n.children) && n.children[n.indexes[b]].segment.Type == 0))
-//@ opaque pred hmOK(n *node) = len(n.handlers) > 0 ==> in("", n.handlers) && in("OPTIONS", n.handlers)
+// a node with handlers has the automatic OPTIONS and 405 ones; a TRACE handler is never registered by hand on a tree with WithTrace
+//@ opaque pred hmOK(n *node) = (len(n.handlers) > 0 ==> in("", n.handlers) && in("OPTIONS", n.handlers)) && (n.root != nil && n.root.hasTrace ==> !in("TRACE", n.handlers))
 // only the root of a tree has no parent, and it always has handlers (OPTIONS * and its 405)
 //@ opaque pred parentOK(n *node) = (n.parent == nil ==> len(n.handlers) > 0) && (n.parent != nil ==> allocated(n.parent) && n.parent.root == n.root)
 //@ opaque pred nodeSafe(n *node) = n.root != nil && allocated(n.root) && allocated(n.segment) && segOK(n.segment) && kidsOK(n) && sortedKinds(n) && idxOK(n) && hmOK(n) && parentOK(n)
@@ -31,8 +32,10 @@ package tree
 //@      (arr(a.children) == 0 || arr(a.children) != arr(b.children)) && (a.indexes == nil || a.indexes != b.indexes) && (a.handlers == nil || a.handlers != b.handlers)
 // what a helper working on node n leaves alone
 //@ pred othersKept(n *node) = forall m *node :: m != n && old(allocated(m)) && old(nodeSafe(m)) ==> nodeSafe(m)
-//@ pred treeOK(t *Tree) = t != nil && allocated(t) && t.node != nil && allocated(t.node) && t.node.root == t && t.node.parent == nil && icOK(t.interceptors) && t.methods != nil &&
+//@ pred treeOK(t *Tree) = t != nil && allocated(t) && t.node != nil && allocated(t.node) && t.node.root == t && t.node.parent == nil && icOK(t.interceptors) && t.methods != nil && t.methods != methodIndexMap && countersOK(t) &&
 //@      t.optionsBuilder != nil && t.methodNotAllowedBuilder != nil
+// the automatic methods are never counted in the server-wide summary (OPTIONS always, TRACE when the tree answers it itself)
+//@ pred countersOK(t *Tree) = !(in("OPTIONS", t.methods) && t.methods["OPTIONS"] > 0) && (t.hasTrace ==> !(in("TRACE", t.methods) && t.methods["TRACE"] > 0))
 //@ pred rootOK(n *node) = n.root != nil && treeOK(n.root)
 // lock discipline (C06): the caller holds the tree's lock in the given mode, or the tree has no lock
 //@ pred lockFree(t *Tree) = t.locker == nil || t.locker.state == 0
@@ -296,7 +299,8 @@ package tree
 //
 //@ fn node.addMethods
 //@   requires [C06] lock: heldW(n)
-//@   requires n != nil && n.handlers != nil && n.root != nil && n.root.optionsBuilder != nil && n.root.methodNotAllowedBuilder != nil && n.root.node != nil && n.root.methods != nil
+//@   requires n != nil && n.handlers != nil && n.root != nil && n.root.optionsBuilder != nil && n.root.methodNotAllowedBuilder != nil && n.root.node != nil && n.root.methods != nil &&
+//@        n.root.node.root == n.root && n.root.methods != methodIndexMap && countersOK(n.root)
 //@   requires (in("HEAD", n.handlers) <==> in("GET", n.handlers)) && (n.root.hasTrace ==> !in("TRACE", n.handlers))
 //@   ensures [C17] err-unchanged: result != nil ==> dom(n.handlers) == old(dom(n.handlers)) && vals(n.handlers) == old(vals(n.handlers)) && n.methodIndex == old(n.methodIndex)
 // (success implies every method was acceptable: the contrapositive of "an unacceptable method is rejected")
@@ -319,13 +323,65 @@ package tree
 //@   inv 2 [C08] so-far: (forall i int :: 0 <= i && i <= rangeindex ==> in(methods[i], n.handlers)) && (forall k string :: old(in(k, n.handlers)) ==> in(k, n.handlers))
 //@   inv 2 [C08] head: (in("HEAD", n.handlers) <==> in("GET", n.handlers)) && (n.root.hasTrace ==> !in("TRACE", n.handlers))
 
+// The server-wide summary behind "OPTIONS *" (C04): a counter per method, and the root's mask rendered from it.
+//@ pred counted(k string) = k != "" && k != "OPTIONS" && k != "HEAD"
+//@ pred pos(m map[string]int, k string) = in(k, m) && m[k] > 0
+//@ pred posMask(v `(Array String Bool)`, m map[string]int) = ((v["GET"] && m["GET"] > 0) ? 1 : 0) + ((v["POST"] && m["POST"] > 0) ? 2 : 0) + ((v["DELETE"] && m["DELETE"] > 0) ? 4 : 0) +
+//@      ((v["PUT"] && m["PUT"] > 0) ? 8 : 0) + ((v["PATCH"] && m["PATCH"] > 0) ? 16 : 0) + ((v["CONNECT"] && m["CONNECT"] > 0) ? 32 : 0) + ((v["TRACE"] && m["TRACE"] > 0) ? 64 : 0) +
+//@      ((v["HEAD"] && m["HEAD"] > 0) ? 128 : 0) + ((v["OPTIONS"] && m["OPTIONS"] > 0) ? 256 : 0)
+//
 //@ fn Tree.buildMethods
 //@   requires [C06] lock: theldW(tree)
-//@   requires tree != nil && tree.node != nil && tree.methods != nil
+//@   requires tree != nil && tree.node != nil && tree.node.root == tree && tree.methods != nil && tree.methods != methodIndexMap
+//@   requires [C04,C07] reserved-not-counted: !pos(tree.methods, "OPTIONS") && (tree.hasTrace ==> !pos(tree.methods, "TRACE")) &&
+//@        (forall i int :: 0 <= i && i < len(methods) ==> methods[i] != "OPTIONS" && (tree.hasTrace ==> methods[i] != "TRACE"))
 //@   modifies []string:
+//@   modifies map[string]int: tree.methods
+//@   modifies tree.node.methodIndex: tree.node
 //@   ensures [C07] memo-read-only: dom(methodIndexes) == old(dom(methodIndexes)) && vals(methodIndexes) == old(vals(methodIndexes))
+//@   ensures [C04] root-mask: tree.node.methodIndex == 256 + (tree.hasTrace ? 64 : 0) + posMask(dom(tree.methods), tree.methods)
+//@   ensures [C04] reserved-not-counted: countersOK(tree)
+//@   ensures [C04] counters-kept: len(methods) == 0 ==> dom(tree.methods) == old(dom(tree.methods)) && vals(tree.methods) == old(vals(tree.methods))
 //@   atcall tree.buildMethodIndexes [C07] present: in(arg0, methodIndexes)
-//@   inv 1 bound: -1 <= rangeindex && rangeindex < len(methods)
+//@   inv 1 bound: -1 <= rangeindex && rangeindex < len(methods) && tree.methods == old(tree.methods) && unchangedMaps("map[string]int", tree.methods)
+//@   inv 1 [C04] reserved: !pos(tree.methods, "OPTIONS") && (tree.hasTrace ==> !pos(tree.methods, "TRACE"))
+//@   inv 1 [C04] kept: old(len(methods)) == 0 ==> dom(tree.methods) == old(dom(tree.methods)) && vals(tree.methods) == old(vals(tree.methods))
+//@   inv 2 [C04] reserved: !pos(tree.methods, "OPTIONS") && (tree.hasTrace ==> !pos(tree.methods, "TRACE"))
+//@   inv 2 frame-maps: unchangedMaps("map[string]int", tree.methods)
+//@   inv 2 frame-mask: unchanged("tree.node.methodIndex", tree.node)
+//@   inv 2 [C04] kept: old(len(methods)) == 0 ==> dom(tree.methods) == old(dom(tree.methods)) && vals(tree.methods) == old(vals(tree.methods))
+//@   inv 2 [C04] sum: tree.node.methodIndex == 256 + (tree.hasTrace ? 64 : 0) + posMask(visited(2), tree.methods) && (forall k string :: visited(2)[k] ==> in(k, tree.methods))
+//
+//@ fn node.countMethods
+//@   requires [C06] lock: heldR(n)
+//@   requires n != nil && allocated(n) && allSafe() && methods != nil
+//@   requires forall k string :: in(k, methods) ==> methods[k] >= 0
+//@   modifies map[string]int: methods
+//@   ensures [C04] monotone: forall k string :: (old(in(k, methods)) ==> in(k, methods) && methods[k] >= old(methods[k])) && (in(k, methods) ==> methods[k] >= 0)
+//@   ensures [C04] automatic-not-counted: forall k string :: !counted(k) ==> (in(k, methods) <==> old(in(k, methods))) && methods[k] == old(methods[k])
+//@   ensures [C04] children-counted: forall i int, k string :: 0 <= i && i < len(n.children) && in(k, n.children[i].handlers) && counted(k) ==> pos(methods, k)
+//@   ensures [C04,C18] trace-not-counted: n.root.hasTrace ==> (in("TRACE", methods) <==> old(in("TRACE", methods))) && methods["TRACE"] == old(methods["TRACE"])
+//@   ensures [C04] leaf: len(n.children) == 0 ==> dom(methods) == old(dom(methods)) && vals(methods) == old(vals(methods))
+//@   inv 1 bound: -1 <= rangeindex && rangeindex < len(n.children) && allSafe() && unchangedMaps("map[string]int", methods)
+//@   inv 1 [C04] untouched-so-far: rangeindex == -1 ==> dom(methods) == old(dom(methods)) && vals(methods) == old(vals(methods))
+//@   inv 1 [C04,C18] trace-not-counted: n.root.hasTrace ==> (in("TRACE", methods) <==> old(in("TRACE", methods))) && methods["TRACE"] == old(methods["TRACE"])
+//@   inv 1 [C04] monotone: forall k string :: (old(in(k, methods)) ==> in(k, methods) && methods[k] >= old(methods[k])) && (in(k, methods) ==> methods[k] >= 0)
+//@   inv 1 [C04] automatic-not-counted: forall k string :: !counted(k) ==> (in(k, methods) <==> old(in(k, methods))) && methods[k] == old(methods[k])
+//@   inv 1 [C04] children-counted: forall i int, k string :: 0 <= i && i <= rangeindex && in(k, n.children[i].handlers) && counted(k) ==> pos(methods, k)
+//@   inv 2 bound: -1 <= rangeindex && rangeindex + 1 < len(n.children) && allSafe() && unchangedMaps("map[string]int", methods)
+//@   inv 2 [C04,C18] trace-not-counted: n.root.hasTrace ==> (in("TRACE", methods) <==> old(in("TRACE", methods))) && methods["TRACE"] == old(methods["TRACE"])
+//@   inv 2 [C04] monotone: forall k string :: (old(in(k, methods)) ==> in(k, methods) && methods[k] >= old(methods[k])) && (in(k, methods) ==> methods[k] >= 0)
+//@   inv 2 [C04] automatic-not-counted: forall k string :: !counted(k) ==> (in(k, methods) <==> old(in(k, methods))) && methods[k] == old(methods[k])
+//@   inv 2 [C04] children-counted: forall i int, k string :: 0 <= i && i <= rangeindex && in(k, n.children[i].handlers) && counted(k) ==> pos(methods, k)
+//@   inv 2 [C04] this-child: (forall k string :: visited(2)[k] && counted(k) ==> pos(methods, k)) && (forall k string :: visited(2)[k] ==> in(k, n.children[rangeindex + 1].handlers))
+//
+//@ fn Tree.rebuildMethods
+//@   requires [C06] lock: theldW(tree)
+//@   requires treeOK(tree) && allSafe()
+//@   ensures [C04] root-mask: tree.node.methodIndex == 256 + (tree.hasTrace ? 64 : 0) + posMask(dom(tree.methods), tree.methods)
+//@   ensures [C04] live-methods-listed: forall i int, k string :: 0 <= i && i < len(tree.node.children) && in(k, tree.node.children[i].handlers) && counted(k) ==> pos(tree.methods, k)
+//@   ensures [C04] nothing-left: len(tree.node.children) == 0 ==> (forall k string :: !pos(tree.methods, k))
+//@   ensures [C04] automatic-not-counted: !pos(tree.methods, "OPTIONS") && !pos(tree.methods, "HEAD") && !pos(tree.methods, "")
 
 // init: the method tables are built here and nowhere else
 //@ pred methodsTable() = len(Methods) == 9 && Methods[0] == "GET" && Methods[1] == "POST" && Methods[2] == "DELETE" && Methods[3] == "PUT" &&
@@ -357,14 +413,6 @@ package tree
 //@ fn node.routes
 //@   requires [C06] lock: heldR(n)
 //@   requires n != nil && allocated(n) && allSafe() && routes != nil
-//
-//@ fn node.countMethods
-//@   requires [C06] lock: heldR(n)
-//@   requires n != nil && allocated(n) && allSafe() && methods != nil
-//
-//@ fn Tree.rebuildMethods
-//@   requires [C06] lock: theldW(tree)
-//@   requires treeOK(tree) && allSafe()
 //
 //@ fn Tree.checkAmbiguous
 //@   requires [C06] lock: theldR(tree)
